@@ -175,6 +175,8 @@ def _h_int(a, k):
         return x
     if isinstance(x, SymBool):
         return symseq.lift_int(x)
+    if hasattr(x, '__sx_int__'):
+        return x.__sx_int__()
     n = type(x).__name__
     if n == 'SymFloat':
         return x.__int__()
@@ -404,6 +406,9 @@ def _bound_c_method(f, selfobj, a, k):
             raise Inconclusive('symbolic value stored into a native bytearray (created outside instrumented code)')
         return NotImplemented
     if ts is str:
+        if name == 'format' and (any_sym(a) or any_sym(k.values())):
+            from . import symstr
+            return symstr.format_method(selfobj, a, k)
         if a and (any_sym(a) or (name == 'join' and not isinstance(a[0], str))):
             from . import symstr
             return symstr.str_method(selfobj, name, a, k)
